@@ -1337,6 +1337,16 @@ class Cap(object):
                 st.cons.append(Lin.sym(r) + 1)
                 st.cons.append(iv(2) - Lin.sym(r))
                 return [(st, I(Lin.sym(r)))]
+            if cn == "fwrite" and iv(1) is not None and iv(2) is not None:
+                a, b = iv(1), iv(2)
+                tot = a.scale(b.c) if b.is_const() else (b.scale(a.c) if a.is_const() else None)
+                if tot is not None:
+                    self.oblige(st, "count", n, tot, "negative size passed to fwrite")
+                    self.access(st, n, A[0], tot, False, "fwrite buffer")
+                    r = fresh("wr")
+                    st.cons.append(Lin.sym(r))
+                    st.cons.append(b - Lin.sym(r))
+                    return [(st, I(Lin.sym(r)))]
             return [(st, I(Lin.sym(fresh("wr"))))]
         if cn in ("getenv", "getprotobyname", "getservbyname", "gethostbyname", "fopen", "fdopen", "popen", "opendir", "readdir", "dlsym", "dlopen", "strerror", "getcwd"):
             if cn == "getenv":
